@@ -600,3 +600,25 @@ package trend
 //@ ensures[C03] consumed(snapshots) == len(snapshots)
 //@ use nlast_hold(res(WeightedCloseStrategy_Compute), len(res(WeightedCloseStrategy_Compute)) - len(arg(ActionsToAnnotations, 0, 0)), len(res(WeightedCloseStrategy_Compute)) - len(arg(ActionsToAnnotations, 0, 0)))
 //@ use nlast_skip(res(WeightedCloseStrategy_Compute), arg(ActionsToAnnotations, 0, 0), len(res(WeightedCloseStrategy_Compute)) - len(arg(ActionsToAnnotations, 0, 0)))
+
+// ---- generated by /verif/tools/gentypeinv.py: admissible configurations and warm-up of the strategy types ----
+//@ typeinv AlligatorStrategy :: a.Jaw.Period >= 1 && a.Teeth.Period >= 1 && a.Lip.Period >= 1 && warmup(self) == (max(a.Jaw.Period, max(a.Teeth.Period, a.Lip.Period)) - 1)
+//@ typeinv ApoStrategy :: 1 <= a.Apo.FastPeriod && a.Apo.FastPeriod <= a.Apo.SlowPeriod && warmup(self) == (a.Apo.SlowPeriod)
+//@ typeinv AroonStrategy :: a.Aroon.Period >= 1 && warmup(self) == (a.Aroon.Period - 1)
+//@ typeinv BopStrategy :: warmup(self) == (0)
+//@ typeinv CciStrategy :: t.Cci.Period >= 1 && warmup(self) == (t.Cci.IdlePeriod())
+//@ typeinv DemaStrategy :: d.Dema1.Ema1.Period >= 1 && d.Dema1.Ema2.Period >= 1 && d.Dema2.Ema1.Period >= 1 && d.Dema2.Ema2.Period >= 1 && warmup(self) == (d.Dema2.IdlePeriod())
+//@ typeinv EnvelopeStrategy :: warmup(self) == (e.Envelope.IdlePeriod())
+//@ typeinv GoldenCrossStrategy :: 1 <= t.FastEma.Period && t.FastEma.Period <= t.SlowEma.Period && warmup(self) == (t.SlowEma.IdlePeriod())
+//@ typeinv KamaStrategy :: k.Kama.ErPeriod >= 1 && warmup(self) == (k.Kama.IdlePeriod())
+//@ typeinv KdjStrategy :: kdj.Kdj.MovingMax.Period >= 1 && kdj.Kdj.MovingMin.Period == kdj.Kdj.MovingMax.Period && kdj.Kdj.Sma1.Period >= 1 && kdj.Kdj.Sma2.Period >= 1 && warmup(self) == (kdj.Kdj.IdlePeriod())
+//@ typeinv MacdStrategy :: 1 <= m.Macd.Ema1.Period && m.Macd.Ema1.Period <= m.Macd.Ema2.Period && m.Macd.Ema3.Period >= 1 && warmup(self) == (m.Macd.IdlePeriod())
+//@ typeinv QstickStrategy :: q.Qstick.Sma.Period >= 1 && warmup(self) == (q.Qstick.Sma.Period)
+//@ typeinv SmmaStrategy :: s.ShortSmma.Period >= 1 && s.LongSmma.Period >= 1 && warmup(self) == (max(s.ShortSmma.Period, s.LongSmma.Period) - 1)
+//@ typeinv TrimaStrategy :: 1 <= t.Short.Period && t.Short.Period <= t.Long.Period && warmup(self) == (t.Long.IdlePeriod())
+//@ typeinv TripleMovingAverageCrossoverStrategy :: 1 <= t.FastEma.Period && t.FastEma.Period <= t.MediumEma.Period && t.MediumEma.Period <= t.SlowEma.Period && warmup(self) == (t.SlowEma.IdlePeriod())
+//@ typeinv TrixStrategy :: t.Trix.Period >= 1 && warmup(self) == (t.Trix.IdlePeriod())
+//@ typeinv TsiStrategy :: warmup(self) == (t.IdlePeriod())
+//@ typeinv VwmaStrategy :: v.Vwma.Period >= 1 && v.Sma.Period == v.Vwma.Period && warmup(self) == (v.Vwma.Period - 1)
+//@ typeinv WeightedCloseStrategy :: warmup(self) == (w.Ma.IdlePeriod())
+// ---- end generated typeinv ----
